@@ -15,7 +15,7 @@
       KeepAliveFire  the keep-alive arm: handle_outgoing_packet(PingReq)
       Fail           any Err out of select(): EventLoop::clean() — the state's unacknowledged work
                      goes IN FRONT of what is still pending (after the fix: commit 0960300; before
-                     it, behind — finding F20, [loop_clean_orig]), then the channel's requests
+                     it, behind — finding F31, [loop_clean_orig]), then the channel's requests
       Reconnect sp   poll() with no network: connect; pending.clear() iff !session_present
 
     The select arms only run when the notification queue is empty (select() returns a queued
